@@ -12,6 +12,9 @@ import subprocess
 ROOT = os.path.dirname(os.path.dirname(os.path.abspath(__file__)))
 
 MAP = [
+    ("a partial signature on an input described by a witness UTXO is always checked against the segwit digest", "C10", "follow-up to 594bbc4: a P2SH output given as witness UTXO without its RedeemScript fell between the two digest branches and a junk partial signature loaded"),
+    ("PSBTIn.validate refuses a WitnessScript on a non-witness output only when the output is known", "C10", "follow-up to the unused-slot fix: an input carrying a WitnessScript but no UTXO record yet was refused (unknown output treated as non-witness)"),
+    ("PSBTIn.parse requires the sighash type to be four bytes", "C10", "a PSBT_IN_SIGHASH_TYPE value of 5+ bytes >= 2^32 was accepted by parse and serialize() of the parsed object raised OverflowError"),
     ("P2WSHSortedMulti.parse also reads a descriptor that is a quoted value of a JSON account map", "C16", "follow-up to 85b22cb: the end anchor refused a Specter-Desktop account map (descriptor as a quoted JSON value followed by \"} or by further keys); a second pattern reads exactly that form and still refuses a tail glued to the descriptor"),
     ("Tx.parse falls back to the legacy reading only when it accounts for the whole rest of the stream", "C04", "follow-up to 9404a5b: a truncated segwit transaction was returned as an invented legacy transaction without inputs (the segwit error was swallowed)"),
     ("GetHeadersMessage refuses a hash count other than the one locator hash", "C19", "GetHeadersMessage(num_hashes=k) wrote the count k but always one locator hash: for k != 1 the payload is not a getheaders message"),
